@@ -50,3 +50,26 @@ func SetSize(fd uintptr, rows, cols int) error {
 	ws := winsize{Row: uint16(rows), Col: uint16(cols)}
 	return ioctl(fd, tiocswinsz, unsafe.Pointer(&ws))
 }
+
+const (
+	tcgets = 0x5401
+	tcsets = 0x5402
+)
+
+// MakeRaw switches the line discipline of a pty off (no canonical mode, no
+// echo, no signal or flow-control characters, no CR/NL translation), so the
+// reader on the slave side gets exactly the bytes written to the master.
+func MakeRaw(fd uintptr) error {
+	var t syscall.Termios
+	if err := ioctl(fd, tcgets, unsafe.Pointer(&t)); err != nil {
+		return err
+	}
+	t.Iflag &^= syscall.IGNBRK | syscall.BRKINT | syscall.PARMRK | syscall.ISTRIP | syscall.INLCR | syscall.IGNCR | syscall.ICRNL | syscall.IXON
+	t.Oflag &^= syscall.OPOST
+	t.Lflag &^= syscall.ECHO | syscall.ECHONL | syscall.ICANON | syscall.ISIG | syscall.IEXTEN
+	t.Cflag &^= syscall.CSIZE | syscall.PARENB
+	t.Cflag |= syscall.CS8
+	t.Cc[syscall.VMIN] = 1
+	t.Cc[syscall.VTIME] = 0
+	return ioctl(fd, tcsets, unsafe.Pointer(&t))
+}
